@@ -36,6 +36,7 @@ def run(ctx):
     _round6(ctx)
     _round7(ctx)
     _round8(ctx)
+    _round10(ctx)
 
 
 def _run_main6(ctx):
@@ -208,3 +209,10 @@ def _round8(ctx):
         A.include(ctx, r, 'c18', 'R18.2', pick=('edges',))
     with ctx.rule('R04.13', "a reply and a close error for the same channel both fit its reply queue: the I/O thread never fails a correct answer for lack of room (shared with C05)", floor=1) as r:
         A.include(ctx, r, 'c05', 'R05.3', pick=('slot/handle-pairing',))
+
+
+def _round10(ctx):
+    """Rules of other properties that are necessary conditions of this one too (found by seeding round 10: two cooperating sites, indirection)."""
+    from rules import arms as A
+    with ctx.rule('R04.14', "a request on any legal channel id is read by the I/O thread: the loop's own event tokens lie outside the channel ids and every token has its arm (shared with C10)", floor=2) as r:
+        A.include(ctx, r, 'c10', 'R10.7', pick=('special-tokens-disjoint', 'token-dispatch-total'))
